@@ -4,15 +4,15 @@
 //        "ok q0 q1 q2 q3" | "err <message>"
 //   M <command>...                                                                  -> build a model through the mjSpec
 //        C API, compile it, run mj_forward, record every body pose, run <n> steps, record again:
-//        "ok <nbody> (<name> x0[3] q0[4] xN[3] qN[4])* G <ngeom> (<name> type size[3])* J <njnt> (<name> stiffness damping armature)*
+//        "ok <nbody> (<name> x0[3] q0[4] xN[3] qN[4])* G <ngeom> (<name> type size[3])* J <njnt> (<name> stiffness damping armature limited range[2] qpos0 qpos_spring)*
 //            B <nbody> (<name> mass)*" | "err <message>"
 //     commands (whitespace separated, executed in order):
 //        spec <0|1>                                        following commands build spec 0 (main) or 1 (child, for attach)
 //        opt <degree 0|1> <eulerseq> <fusestatic 0|1>
-//        def <name> <parent|-> <k> (<attr> <val>)*k          attr: gtype gs0 gs1 gs2 gdens jdamp jarm jstiff
+//        def <name> <parent|-> <k> (<attr> <val>)*k          attr: gtype gs0 gs1 gs2 gdens jdamp jarm jstiff jlo jhi jlim jref jsref
 //        body <name> <parent body|world> <frame|-> <class|-> px py pz ORI
 //        frame <name> <body> <parent frame|-> px py pz ORI
-//        joint <name> <body> <class|-> <type 0 free|1 ball|2 slide|3 hinge> ax ay az <k> (<attr> <val>)*k   attr: damp arm stiff
+//        joint <name> <body> <class|-> <type 0 free|1 ball|2 slide|3 hinge> ax ay az <k> (<attr> <val>)*k   attr: damp arm stiff lo hi lim ref sref
 //        geom <name> <body> <frame|-> <class|-> px py pz ORI <k> (<attr> <val>)*k     attr: type s0 s1 s2 dens
 //        attach <frame of spec 0> <body of spec 1> <prefix>
 //        qvel <v>                                          initial velocity of every dof
@@ -107,6 +107,11 @@ static void build_and_run(const Toks& t) {
           else if (a == "jdamp") d->joint->damping[0] = v;
           else if (a == "jarm") d->joint->armature = v;
           else if (a == "jstiff") d->joint->stiffness[0] = v;
+          else if (a == "jlo") d->joint->range[0] = v;
+          else if (a == "jhi") d->joint->range[1] = v;
+          else if (a == "jlim") d->joint->limited = (mjtLimited)(int)v;
+          else if (a == "jref") d->joint->ref = v;
+          else if (a == "jsref") d->joint->springref = v;
           else throw Fail{"unknown def attr " + a};
         }
       } else if (cmd == "body") {
@@ -151,6 +156,11 @@ static void build_and_run(const Toks& t) {
           if (a == "damp") j->damping[0] = v;
           else if (a == "arm") j->armature = v;
           else if (a == "stiff") j->stiffness[0] = v;
+          else if (a == "lo") j->range[0] = v;
+          else if (a == "hi") j->range[1] = v;
+          else if (a == "lim") j->limited = (mjtLimited)(int)v;
+          else if (a == "ref") j->ref = v;
+          else if (a == "sref") j->springref = v;
           else throw Fail{"unknown joint attr " + a};
         }
       } else if (cmd == "geom") {
@@ -232,7 +242,9 @@ static void build_and_run(const Toks& t) {
     for (int j = 0; j < m->njnt; j++) {
       const char* nm = mj_id2name(m, mjOBJ_JOINT, j);
       int dof = m->jnt_dofadr[j];
-      snprintf(buf, sizeof buf, " %s %a %a %a", (nm && nm[0]) ? nm : "?", m->jnt_stiffness[j], m->dof_damping[dof], m->dof_armature[dof]);
+      int qa = m->jnt_qposadr[j];
+      snprintf(buf, sizeof buf, " %s %a %a %a %d %a %a %a %a", (nm && nm[0]) ? nm : "?", m->jnt_stiffness[j], m->dof_damping[dof], m->dof_armature[dof],
+               (int)m->jnt_limited[j], m->jnt_range[2 * j], m->jnt_range[2 * j + 1], m->qpos0[qa], m->qpos_spring[qa]);
       result += buf;
     }
     snprintf(buf, sizeof buf, " B %d", (int)m->nbody - 1); result += buf;
